@@ -294,7 +294,7 @@ def c14_sparse_dense(cfg):
     H2 = np.diag(np.arange(1.0, N + 1))
     scale = float(cfg.get("scale", 1.0))  # exact power of two: results scale exactly; small values probe the zero tolerance
     H1, H2 = H1 * scale, H2 * scale  # every INPUT block stays above the documented zero tolerance atol = 1e-12
-    FORMATS = ["dense", "sparse", "sparse_h1_only"] + (["blocks_dense", "blocks_csr_array", "blocks_coo_array", "blocks_csr_matrix", "blocks_coo_matrix"] if cfg.get("blocked") else [])
+    FORMATS = ["dense", "sparse", "sparse_h1_only"] + (["blocks_dense", "blocks_csr_array", "blocks_coo_array", "blocks_csr_matrix", "blocks_coo_matrix", "blocks_mixed_h2_matrix", "blocks_mixed_h1_matrix", "blocks_mixed_h1_array", "blockseries_explicit_zeros", "blockseries_csr_matrix"] if cfg.get("blocked") else [])
     cases = bad = 0
     first = None
     assignments = [a for a in itertools.product(range(cfg["nblocks"]), repeat=N) if all(a[k] <= max(a[:k], default=-1) + 1 for k in range(N))]
@@ -329,16 +329,51 @@ def c14_sparse_dense(cfg):
                             ham = {(0,): sparse.csr_array(H0), (1,): sparse.csr_array(H1), (2,): sparse.csr_array(H2)}
                         elif fmt == "sparse_h1_only":
                             ham = {(0,): H0, (1,): sparse.coo_array(H1), (2,): H2.copy()}
+                        elif fmt == "blockseries_csr_matrix":
+                            # a ready-made block BlockSeries of legacy sparse matrices (reaches the algorithm without any conversion)
+                            from pymablock.series import BlockSeries
+                            from pymablock.series import zero as _zero
+
+                            sel = [[k for k in range(N) if blocks[k] == b] for b in range(nb)]
+                            mats = {0: H0, 1: H1, 2: H2}
+
+                            def ev(i, j, n, sel=sel, mats=mats):
+                                M = mats.get(int(n))
+                                if M is None or (int(n) == 0 and i != j):
+                                    return _zero
+                                B = np.array(M[np.ix_(sel[i], sel[j])])
+                                return _zero if not B.any() else sparse.csr_matrix(B)
+
+                            ham = BlockSeries(eval=ev, shape=(nb, nb), n_infinite=1)
+                            kw = {}
+                        elif fmt == "blockseries_explicit_zeros":
+                            # a ready-made block BlockSeries whose vanishing blocks are ordinary zero matrices, not the sentinel
+                            from pymablock.series import BlockSeries
+
+                            sel = [[k for k in range(N) if blocks[k] == b] for b in range(nb)]
+                            mats = {0: H0, 1: H1, 2: H2}
+
+                            def ev(i, j, n, sel=sel, mats=mats):
+                                M = mats.get(int(n))
+                                if M is None:
+                                    return np.zeros((len(sel[i]), len(sel[j])))
+                                return np.array(M[np.ix_(sel[i], sel[j])])
+
+                            ham = BlockSeries(eval=ev, shape=(nb, nb), n_infinite=1)
+                            kw = {}
                         else:
                             # pre-blocked input (nested lists of blocks reach the algorithm unprojected) with every container type
-                            conv = {"blocks_dense": np.array, "blocks_csr_array": sparse.csr_array, "blocks_coo_array": sparse.coo_array,
-                                    "blocks_csr_matrix": sparse.csr_matrix, "blocks_coo_matrix": sparse.coo_matrix}[fmt]
+                            convs = {"blocks_dense": (np.array,) * 3, "blocks_csr_array": (sparse.csr_array,) * 3, "blocks_coo_array": (sparse.coo_array,) * 3,
+                                     "blocks_csr_matrix": (sparse.csr_matrix,) * 3, "blocks_coo_matrix": (sparse.coo_matrix,) * 3,
+                                     # container types mixed between the orders (sums of a sparse matrix and an array are np.matrix objects)
+                                     "blocks_mixed_h2_matrix": (np.array, np.array, sparse.csr_matrix), "blocks_mixed_h1_matrix": (np.array, sparse.csr_matrix, np.array),
+                                     "blocks_mixed_h1_array": (np.array, sparse.csr_array, np.array)}[fmt]
                             sel = [[k for k in range(N) if blocks[k] == b] for b in range(nb)]
 
-                            def split(M, conv=conv, sel=sel):
+                            def split(M, conv, sel=sel):
                                 return [[conv(M[np.ix_(sel[i], sel[j])]) for j in range(nb)] for i in range(nb)]
 
-                            ham = {(0,): split(H0), (1,): split(H1), (2,): split(H2)}
+                            ham = {(0,): split(H0, convs[0]), (1,): split(H1, convs[1]), (2,): split(H2, convs[2])}
                             kw = {}
                         vals = {}
                         try:
